@@ -1,6 +1,7 @@
 package main
 
 import (
+	"time"
 	"strings"
 	"fmt"
 	"strconv"
@@ -187,6 +188,7 @@ func (ex *Exec) verifySpecLemma(c *Contract, pkg *types.Package, anyFn *ssa.Func
 
 func (ex *Exec) verifyFunc(fn *ssa.Function, c *Contract) {
 	ex.top, ex.topC = fn, c
+	ex.started = time.Now()
 	frameStack = nil
 	st := newState(ex)
 	st.declare("alloc0", SortInt)
